@@ -8,7 +8,8 @@ CFG = {
                    "GeoProofs/Lemmas/RelateSpecDisjoint.lean", "GeoProofs/Lemmas/RelateSpecRewrite.lean",
                    "GeoProofs/Lemmas/RelateSpecReverse.lean", "GeoProofs/Lemmas/C01QAtoms.lean",
                    "GeoProofs/Lemmas/C01QDisjoint.lean", "GeoProofs/Lemmas/C01QTypes.lean",
-                   "GeoProofs/Lemmas/C01QAreal.lean", "GeoProofs/Lemmas/C01QPoint.lean"],
+                   "GeoProofs/Lemmas/C01QAreal.lean", "GeoProofs/Lemmas/C01QPoint.lean",
+                   "GeoProofs/Lemmas/C01QTriangle.lean"],
     "rule": "ordered pairs (A, B) over all 10 geometry types (Geometry enum on both sides) drawn from one shared 3..6 grid: polyomino polygons with "
             "holes (incl. holes tangent to the shell), star polygons, rectangles with holes, corner-touching multipolygons, self-avoiding lattice "
             "paths, multi line strings sharing end points (mod-2 rule), half-grid points, same-dimension collections; each case also relates the "
